@@ -820,6 +820,20 @@ theorem foldCoeffsIter_vanish (N : Nat) (offset : K) (r : Nat) :
       apply hc
       rw [pow_succ, Nat.mul_comm (N ^ k) N, Nat.mul_assoc]; exact hj
 
+theorem honestOpenings_length (N : Nat) (offset : K) :
+    ∀ (k : Nat) (g : K) (d D : Nat) (c : Nat → K) (αs : List K) (ps : List Nat), k ≤ αs.length →
+      (honestOpenings N offset k g d D c αs ps).length = k := by
+  intro k
+  induction k with
+  | zero => intros; simp [honestOpenings]
+  | succ k ih =>
+    intro g d D c αs ps hlen
+    cases αs with
+    | nil => simp at hlen
+    | cons a l =>
+      simp only [honestOpenings, List.length_cons]
+      rw [ih _ _ _ _ l _ (by simpa using hlen)]
+
 /-- END TO END (model level): the verifier accepts what the prover model builds from the
 evaluations of a polynomial within the bound.  Domain of `N^k·m` points with `m = r·blowup`,
 `N^k·r` coefficients (declared degree bound `N^k·r − 1`), `k` = number of FRI layers. -/
@@ -837,7 +851,8 @@ theorem verify_buildProof (o : FriOptions) {N : Nat} (hfold : o.folding = N) (hs
         { maxPolyDegree := N ^ k * r - 1, domainSize := N ^ k * m, g := g, offset := offset,
           options := o, numPartitions := 1, alphas := alphas }
         (positions.map fun p => polyEval c (N ^ k * r) (offset * g ^ p)) positions
-        (opened.map fun rows => { rows := rows, merkleOk := true }) remainder true = .ok () := by
+        (opened.map fun rows => { rows := rows, merkleOk := true }) remainder true = .ok () ∧
+      opened.length = k := by
   have hN : 0 < N := by
     rcases Nat.eq_zero_or_pos N with h | h
     · subst h; simp [supportedFolding] at hsup
@@ -859,7 +874,8 @@ theorem verify_buildProof (o : FriOptions) {N : Nat} (hfold : o.folding = N) (hs
     remainderPoly (fieldOps K) (g ^ (N ^ k)) offset o.blowup ((List.range m).map fun p =>
       polyEval (foldCoeffsIter N offset k alphas c) m (offset * (g ^ (N ^ k)) ^ p)),
     (honestOpenings N offset k g (N ^ k * m) (N ^ k * r) c alphas positions).map (·.rows), ?_,
-    buildProofLayers_honest (offset := offset) hN m r hm k g c alphas positions hα, ?_⟩
+    buildProofLayers_honest (offset := offset) hN m r hm k g c alphas positions hα, ?_,
+    by rw [List.length_map, honestOpenings_length N offset k _ _ _ _ _ _ hα]⟩
   · unfold buildLayers
     simp only [List.length_map, List.length_range, hk, hfold,
       buildLayersGo_honest hN hoff m r hm k g c alphas hg hα, pow_eq, hlast]
@@ -916,5 +932,40 @@ theorem verify_buildProof (o : FriOptions) {N : Nat} (hfold : o.folding = N) (hs
     simp only [hv] at hrem
     rw [h1] at hrem
     exact hrem
+
+/-- END TO END THROUGH `FriVerifier::new`: the verifier is built from the declared degree bound
+alone (`domain_size = (max_poly_degree + 1).next_power_of_two() · blowup`, generator `gOf` of that
+size), the number of commitments is `k + 1`, and the bound `N^k·r − 1` has `N^k·r` a power of two
+(this includes the bound 1: `N^k·r = 2`) -/
+theorem newAndVerify_buildProof (o : FriOptions) {N : Nat} (hfold : o.folding = N)
+    (hsup : supportedFolding N = true) (m r k a : Nat) (hr : 0 < r) (hmr : m = r * o.blowup)
+    (hb : 0 < o.blowup) (hpow2 : N ^ k * r = 2 ^ a) (hk : o.numFriLayers (N ^ k * m) = k)
+    (gOf : Nat → K) (offset : K) (hg : IsPrimitiveRoot (gOf (N ^ k * m)) (N ^ k * m)) (hoff : offset ≠ 0)
+    (c : Nat → K) (hc : ∀ j, N ^ k * r ≤ j → c j = 0) (alphas : List K) (hα : alphas.length = k + 1)
+    (positions : List Nat) (hpos : ∀ p ∈ positions, p < N ^ k * m) :
+    ∃ layers remainder opened,
+      buildLayers (fieldOps K) o (gOf (N ^ k * m)) offset alphas
+        ((List.range (N ^ k * m)).map fun p => polyEval c (N ^ k * r) (offset * gOf (N ^ k * m) ^ p)) =
+          some (layers, remainder) ∧
+      buildProofLayers N layers positions (N ^ k * m) = some opened ∧
+      newAndVerify (fieldOps K) o (N ^ k * r - 1) 1 gOf offset alphas
+        (positions.map fun p => polyEval c (N ^ k * r) (offset * gOf (N ^ k * m) ^ p)) positions
+        (opened.map fun rows => { rows := rows, merkleOk := true }) remainder true = .ok () := by
+  have hN : 0 < N := by
+    rcases Nat.eq_zero_or_pos N with h | h
+    · subst h; simp [supportedFolding] at hsup
+    · exact h
+  obtain ⟨layers, remainder, opened, h1, h2, h3, h4⟩ :=
+    verify_buildProof o hfold hsup m r k hr hmr hb hk (gOf (N ^ k * m)) offset hg hoff c hc alphas
+      (by omega) positions hpos
+  refine ⟨layers, remainder, opened, h1, h2, ?_⟩
+  have hDpos : 0 < N ^ k * r := Nat.mul_pos (Nat.pow_pos hN) hr
+  have hmd : N ^ k * r - 1 + 1 = N ^ k * r := by omega
+  have hdom : nextPow2 (N ^ k * r - 1 + 1) * o.blowup = N ^ k * m := by
+    rw [hmd, hpow2, nextPow2_two_pow, ← hpow2, hmr, Nat.mul_assoc]
+  unfold newAndVerify
+  rw [if_neg (by simp [h4, hα]), hα, hfold, newCheck_honest N r k hN hr]
+  simp only [hdom]
+  exact h3
 
 end Wf.Fri
